@@ -47,7 +47,7 @@ CHECK = Check(
              "array = Run on the array InitialiseStates(nCells) builds, same result / error class), run_nil_states_error, single_cell_eq_init (every "
              "cell equals the single-cell Run started from ITS row of that array). That this row equals what InitialiseStates(1) builds for the cell "
              "alone is PROVED for models whose initial rows all have one width (OW/Props/C04InitRows.lean: fill_content, initStates_uniform, "
-             "initStates_uniform_row — the array is exactly the list of km.init(column i)); it is not true when the width depends on a parameter "
+             "initStates_uniform_row — the array is exactly the list of km.init(column i); single_cell_eq_init_uniform — cell i of the nil-states run = the single-cell Run from km.init(column i)); it is not true when the width depends on a parameter "
              "(rows are sized from cell 0: KF-C05-GR4J/Lag-InitialiseStates-row-width)"],
 )
 
